@@ -25,14 +25,8 @@ func (e EmptySet) IsTrue() bool {
 }
 
 func (e EmptySet) Less(v Value) bool {
-	if e == v {
-		return false
-	}
-	switch v.(type) {
-	case Number, Tuple:
-		return false
-	}
-	return true
+	// The empty set is the only value of its kind.
+	return e.Kind() < v.Kind()
 }
 
 func (e EmptySet) Negate() Value {
